@@ -17,6 +17,9 @@ pub enum IOp<I> {
     AddLoop(Vec<I>),
     ExtendVals(Vec<I>),
     ExtendRefs(Vec<I>),
+    /// the same through an iterator that reports no useful size_hint
+    ExtendValsOpaque(Vec<I>),
+    ExtendRefsOpaque(Vec<I>),
 }
 
 #[derive(Clone)]
@@ -61,6 +64,8 @@ impl<T: Ingest> Spec for IngestSpec<T> {
             for w in words(&self.alpha, l) {
                 v.push(IState { e: guarded(|| T::collect_vals(&w)), seq: w.clone(), how: "collect(values)" });
                 v.push(IState { e: guarded(|| T::collect_refs(&w)), seq: w.clone(), how: "collect(references)" });
+                v.push(IState { e: guarded(|| T::collect_vals_opaque(&w)), seq: w.clone(), how: "collect(values, no size hint)" });
+                v.push(IState { e: guarded(|| T::collect_refs_opaque(&w)), seq: w.clone(), how: "collect(references, no size hint)" });
             }
         }
         v
@@ -81,6 +86,8 @@ impl<T: Ingest> Spec for IngestSpec<T> {
             for w in words(&self.alpha, l) {
                 v.push(IOp::AddLoop(w.clone()));
                 v.push(IOp::ExtendVals(w.clone()));
+                v.push(IOp::ExtendValsOpaque(w.clone()));
+                v.push(IOp::ExtendRefsOpaque(w.clone()));
                 v.push(IOp::ExtendRefs(w));
             }
         }
@@ -110,6 +117,20 @@ impl<T: Ingest> Spec for IngestSpec<T> {
                         }
                     }
                 }
+                IOp::ExtendValsOpaque(w) => {
+                    if !e.extend_vals_opaque(w) {
+                        for i in w {
+                            e.add_item(*i);
+                        }
+                    }
+                }
+                IOp::ExtendRefsOpaque(w) => {
+                    if !e.extend_refs_opaque(w) {
+                        for i in w {
+                            e.add_item(*i);
+                        }
+                    }
+                }
             }
             e
         });
@@ -118,6 +139,8 @@ impl<T: Ingest> Spec for IngestSpec<T> {
             IOp::AddLoop(w) => (w, "add-loop"),
             IOp::ExtendVals(w) => (w, "extend(values)"),
             IOp::ExtendRefs(w) => (w, "extend(references)"),
+            IOp::ExtendValsOpaque(w) => (w, "extend(values, no size hint)"),
+            IOp::ExtendRefsOpaque(w) => (w, "extend(references, no size hint)"),
         };
         seq.extend(w.iter().copied());
         IState { e: r, seq, how }
@@ -144,6 +167,8 @@ impl<T: Ingest> Spec for IngestSpec<T> {
             IOp::AddLoop(x) => json!({"add_loop": w(x)}),
             IOp::ExtendVals(x) => json!({"extend_values": w(x)}),
             IOp::ExtendRefs(x) => json!({"extend_references": w(x)}),
+            IOp::ExtendValsOpaque(x) => json!({"extend_values_no_size_hint": w(x)}),
+            IOp::ExtendRefsOpaque(x) => json!({"extend_references_no_size_hint": w(x)}),
         }
     }
     fn nontrivial(&self, s: &IState<T>) -> bool {
@@ -195,6 +220,12 @@ impl<T: Ingest> ReplaySpec for IngestSpec<T> {
         let w = |v: &Value| -> Option<Vec<T::Item>> { v.as_array()?.iter().map(|i| T::item_parse(i)).collect() };
         if let Some(x) = v.get("add_loop") {
             return Some(IOp::AddLoop(w(x)?));
+        }
+        if let Some(x) = v.get("extend_values_no_size_hint") {
+            return Some(IOp::ExtendValsOpaque(w(x)?));
+        }
+        if let Some(x) = v.get("extend_references_no_size_hint") {
+            return Some(IOp::ExtendRefsOpaque(w(x)?));
         }
         if let Some(x) = v.get("extend_values") {
             return Some(IOp::ExtendVals(w(x)?));
